@@ -394,6 +394,16 @@ def drive(ctx, case, parts, d):
             if got.shape != exp.shape or not np.array_equal(got, exp):
                 return (f'{nm}[{ixgen.enc_tuple(k2)}] across part boundaries differs from indexing the '
                         f'concatenated arrays (shape {got.shape} vs {exp.shape})'), spanned
+        # in every case whatever the seed: every selected dump by its negative scalar index (the first one lands in
+        # the earliest part, never the final one when the selection spans parts)
+        for neg in sorted({-n, -(n // 2 + 1), -1}) if n else []:
+            try:
+                gv, gt = np.asarray(d.vis[neg]), np.asarray(d.timestamps[neg])
+            except Exception as e:   # noqa: BLE001
+                return f'vis[{neg}] on the combined selection of {n} dumps raised {type(e).__name__}: {str(e)[:80]}', spanned
+            if gv.shape != blk[0][neg].shape or not np.array_equal(gv, blk[0][neg]) or gt != ts[dumps][neg]:
+                return (f'vis[{neg}] / timestamps[{neg}] on the combined selection of {n} dumps are not those of the '
+                        f'dump counted from the end of the concatenated arrays'), spanned
         rows = sels[0][1] if sels[0][0] == 'm' else [sels[0][1]]
         src = [dumps[r] for r in rows]
         if len({int(np.searchsorted(offs, s, side='right')) for s in src}) >= 2:
